@@ -4,7 +4,7 @@ from . import wiregen as W
 
 ID = "C06"
 SPEC_IS_ORACLE = lambda c: c.cmd == "RUN"  # handle-level cases: the model is the closed form of the property
-AUDIT_IMPORTS = ["PortusModel.Props.C06Acts"]
+AUDIT_IMPORTS = ["PortusModel.Props.C06Acts", "PortusModel.Props.C06Uid"]
 THEOREMS = [
     "Portus.C06.updatefield_staged", "Portus.C06.updatefield_acts", "Portus.C06.changeprog_staged", "Portus.C06.changeprog_acts",
     "Portus.C06.changeprog_unknown_uid", "Portus.C06.pending_applied", "Portus.C06.pending_applied_switch", "Portus.C06.update_takes_effect",
@@ -13,6 +13,8 @@ THEOREMS = [
     "Portus.C06.install_read_by_libccp", "Portus.C06.header_len_honest_cp", "Portus.C06.header_len_honest_in",
     "Portus.C06.unrepresentable_fails_cp", "Portus.C06.unrepresentable_fails_uf", "Portus.C06.unrepresentable_fails_in",
     "Portus.C06.updsMatchB_iff", "Portus.C06.instrsMatchB_iff",
+    "Portus.C06.first_uid_is_marker", "Portus.C06.later_uid_not_marker", "Portus.C06.install_nonmarker_keeps",
+    "Portus.C06.install_marker_forgets", "Portus.C06.fresh_history_keeps", "Portus.C06.installProgram_keeps",
 ]
 RELATION = "serialize(&changeprog|update_field|install::Msg) as bytes | ERR | PANIC"
 RULE = ("exhaustive: every register class x index 0..255 x volatility as an update target; update lists of every length "
@@ -66,6 +68,9 @@ def upd_list(rng, n, ok_only=True):
 
 def gen(ctx):
     rng = ctx.rng
+    from . import rtgen as R
+    for a in R.big_program_cases():
+        yield Case("RUN", a, tags=("big-program",))
     from . import rtgen as R
     for a in R.boundary_update_cases():
         yield Case("RUN", a, tags=("handle-limits",))
@@ -127,6 +132,89 @@ def oracle(c, impl_res):
 NEEDS_CVM = True
 CTL_SRC = ("(def (Report (a 0) (b 0)) (c1 5) (volatile c2 6) (c3 7)) (when true (:= Report.a (+ c1 c3)) (:= Report.b c2) "
            "(:= c2 (+ c2 1)) (report))")
+
+
+def fresh_process_check():
+    """a FRESH process (program-uid counter untouched, as in a user's CCP): the install and change-program messages the runtime
+    really sends, in the order it sends them, fed to the real libccp - which treats program uid 1 as "a new CCP started" and
+    drops every program it holds. Whichever registered program a flow selects, libccp must know it and report under its uid."""
+    import struct
+    import core
+    fails = []
+    fresh = {"checked": 0}
+    pa = "(def (Report (x 0))) (when true (:= Report.x 7) (report))"
+    pb = "(def (Report (y 0))) (when true (:= Report.y 9) (report))"
+    pc = "(def (Report (z 0))) (when true (:= Report.z 11) (report))"
+    hxs = lambda t: t.encode().hex()
+    for nprog, sel, want_val in ((2, "pa", 7), (2, "pb", 9), (3, "pa", 7), (3, "pb", 9), (3, "pc", 11), (1, "pa", 7)):
+        progs = ",".join("%s=%s" % (n, hxs(t)) for n, t in (("pa", pa), ("pb", pb), ("pc", pc))[:nprog])
+        line = ("RUNRAW 0 ALG %s 1 PROGS %s NF sp:%s:- OR - SCRIPT 5:RD.1 5:CR.1.10.1460.1.2.3.4.%s X"
+                % (hxs("reno"), progs, sel, hxs("reno")))
+        ans = core.run_impl([line], extra_env={"PHARNESS_UID_BUMP": "0"}).get("0", "")
+        raws = [t[4:] for t in ans.split(" | ") if t.startswith("RAW ")]
+        kinds = [int.from_bytes(bytes.fromhex(h)[:2], "little") for h in raws]
+        if kinds != [2] * nprog + [4]:
+            fails.append({"property": ID, "kind": "no-failing-input-found", "case": line, "answer": ans[:1500],
+                          "relation": "fresh process: the runtime sends one INSTALL per registered program on ready, then the flow's change-program"})
+            continue
+        cp_uid = struct.unpack_from("<I", bytes.fromhex(raws[-1]), 8)[0]
+        ops = ["M " + h for h in raws[:-1]] + ["S 10 1460 1 2 3 4 -", "M " + raws[-1], "T 10", "I 1 10 10 " + ",".join(["0"] * 15)]
+        script = "VM 0 " + " ; ".join(ops)
+        rr = core.run_cvm([script]).get("0", "")
+        mm = core.run_model([script]).get("0", "")
+        parts = rr.split(" | ")
+        try:
+            rcs = [parts[k + 1].split(" ")[1] for k in list(range(nprog)) + [nprog + 1]]
+            rep = parts[-1].split(" ")[-1]
+            b = bytes.fromhex(rep) if rep not in ("-", "") else b""
+            got = (struct.unpack_from("<I", b, 8)[0], list(struct.unpack_from("<%dQ" % struct.unpack_from("<I", b, 12)[0], b, 16))) if b else None
+        except (IndexError, ValueError, struct.error):
+            rcs, got = ["?"], None
+        install_uids = [struct.unpack_from("<I", bytes.fromhex(h), 8)[0] for h in raws[:-1]]
+        if rcs != ["0"] * (nprog + 1) or got != (cp_uid, [want_val]):
+            fails.append({"property": ID, "kind": "failing-input", "case": script[:4000], "harness_case": line,
+                          "relation": "fresh process: libccp accepts the runtime's installs and the flow's change-program, and the flow then runs the selected program",
+                          "install_uids_in_send_order": install_uids, "selected_uid": cp_uid, "libccp_return_codes": rcs,
+                          "report(uid, fields)": got, "expected_report": [cp_uid, [want_val]]})
+        elif rr != mm:
+            fails.append({"property": ID, "kind": "no-failing-input-found", "case": script[:4000], "real": rr[:800], "model": mm[:800],
+                          "relation": "Lean libccp model = real libccp on the messages a fresh runtime sends"})
+        else:
+            fresh["checked"] += 1
+            fresh.setdefault("install_uids_seen", []).append(install_uids)
+    return fails, fresh
+
+
+def pre(ctx):
+    # Props/C06Uid.lean states facts about the uid allocation translated from /repo (shared with C17)
+    import os, subprocess, sys
+    import core
+    p = subprocess.run([sys.executable, os.path.join(core.VERIF, "tools", "extract_uid.py")], capture_output=True, text=True)
+    if p.returncode != 0:
+        raise core.Fail("extract_uid.py failed: " + p.stderr[-2000:])
+
+
+def on_build_fail(ctx, err):
+    """the obligations about the uid libccp treats as a marker no longer check: look for a failing history on the real code"""
+    import os
+    import core
+    if "C06Uid" not in err:
+        return None
+    core.build_harness()
+    core.build_cvm()
+    core.build_lean(["pmodel"])
+    ff, fresh = fresh_process_check()
+    thm = ("Portus.C06.first_uid_is_marker / later_uid_not_marker (Props/C06Uid.lean): the first program compiled in a process must carry "
+           "uid 1 - libccp's new-CCP marker - and no later one may")
+    gen = open(os.path.join(core.LEAN, "PortusModel", "Generated", "UidOp.lean")).read()
+    hard = [f for f in ff if f.get("kind") == "failing-input"]
+    if hard:
+        rp = dict(hard[0])
+        rp["theorem"] = thm
+        rp["generated"] = gen
+        return ("failing-input", rp)
+    return ("proof", {"property": ID, "kind": "no-failing-input-found", "theorem": thm, "generated": gen, "build_error": err[-1500:],
+                      "searched": fresh})
 
 
 def extra(ctx):
@@ -212,6 +300,8 @@ def extra(ctx):
                               "expected": exp, "observed_on_real_libccp": got, "plan(c1,c2,c3,cwnd,c2')": [c1, c2, c3, cw, u2]})
                 break
         checked += 1
+    ff, fresh = fresh_process_check()
+    fails += ff
     # ---- the limits of libccp 1.2.0 itself: what portus can encode but the datapath refuses or cannot hold
     lim = {}
     one = "(def (Report (a 0)) (c1 5)) (when true (:= Report.a c1) (report))"
@@ -272,4 +362,4 @@ def extra(ctx):
                               "libccp_answer": out[:300], "expected_report": k})
     return fails[:12], {"libccp_behaves_accordingly": {"scripts": len(plans), "agree_with_expectation_and_model": checked,
                                                        "messages": "install, change-program(2 fields), update-fields(0/1/2 fields incl. Cwnd)"},
-                        "libccp_limits": lim}
+                        "libccp_limits": lim, "fresh_process_runtime_to_libccp": fresh}
